@@ -300,6 +300,41 @@ def corpus_panics(chk, n):
     chk.extra["corpus_panics"] = bad
 
 
+def odd_type_source(ty, pos):
+    g = "<T>" if "T" in re.findall(r"\bT\b", ty) else ""
+    base = "#[typeshare]\npub struct User { pub u: u32 }\n#[typeshare]\npub struct Gen<X> { pub g: X }\n"
+    if pos == "field":
+        return base + f"#[typeshare]\npub struct Edge{g} {{ pub keep: u32, pub odd: {ty} }}\n"
+    if pos == "vfield":
+        return base + f'#[typeshare]\n#[serde(tag = "t", content = "c")]\npub enum Edge{g} {{ Keep(u32), Sv {{ keep: u32, odd: {ty} }} }}\n'
+    if pos == "payload":
+        return base + f'#[typeshare]\n#[serde(tag = "t", content = "c")]\npub enum Edge{g} {{ Keep(u32), Odd({ty}), U }}\n'
+    if pos == "garg":
+        return base + f"#[typeshare]\npub struct Edge{g} {{ pub odd: Gen<{ty}>, pub more: Vec<Gen<Option<{ty}>>> }}\n"
+    return base + f"#[typeshare]\npub type Edge{g} = {ty};\n"
+
+
+def odd_types(chk):
+    """(c) MC_C07_types: unusual type expressions x carrier position x language through the library: no panic, no abort."""
+    res = common.run_tlc("MC_C07_types", cfg="MC_C07_types", workers=2, timeout=300)
+    chk.add_tlc("MC_C07_types", res)
+    vs = res.replays
+    jobs = [{"id": i, "lang": v["lang"], "files": [{"src": odd_type_source(v["ty"], v["pos"])}],
+             "cfg": {"package": "com.x" if v["lang"] in ("kotlin", "scala") else "p" if v["lang"] == "go" else ""}} for i, v in enumerate(vs)]
+    bad = 0
+    for v, r in zip(vs, common.run_driver("gen", jobs)):
+        chk.judged(("oddtype", v["ty"], v["pos"], v["lang"]))
+        if r["status"] in ("panic", "abort"):
+            bad += 1
+            site = re.sub(r"^.*/(core|cli|lib)/", r"\1/", (r.get("panic") or "?").split(": ")[0]) if r["status"] == "panic" else "abort"
+            cls = re.sub(r"\b(u8|u32|String|bool|char|User|T)\b", "_", v["ty"])
+            chk.mismatch(f"C07/oddtype/{v['lang']}/{v['pos']}/{cls}/{r['status']}@{site}",
+                         f"generator {r['status']} for `{v['ty']}` as {v['pos']} ({v['lang']}): {str(r.get('panic'))[:200]}",
+                         {"vector": v, "src": jobs[0]["files"][0]["src"]}, "output or a reported error", r.get("panic"))
+    chk.extra["odd_type_vectors"] = len(vs)
+    chk.extra["odd_type_panics"] = bad
+
+
 def run(chk):
     thorough = chk.tier == "thorough"
     chk.rule = ("model: every schedule of 3 files x 2 workers x capacity 1 for all parse-result assignments (TLC, with fairness); "
@@ -340,6 +375,7 @@ def run(chk):
     validate_traces(chk, subset)
     chk.extra["runs_trace_validated"] = len(subset)
     corpus_panics(chk, 3000 if thorough else 300)
+    odd_types(chk)
 
 
 def replay(chk, rec):
